@@ -252,7 +252,7 @@ fn gen_ranges(rng: &mut Rng, flen: usize) -> Vec<(u64, usize)> {
 pub fn suite_http(dir: &str, seed: u64, thorough: bool, st: &mut Stats) {
     let mut rng = Rng::new(seed ^ 0x81);
     let mut out = SuiteOut::new(dir, "http");
-    let n = if thorough { 3000 } else { 350 };
+    let n = if thorough { 10000 } else { 350 };
     for i in 0..n {
         let flen = rng.range(if i < 64 { 60 } else { 50 }, 400) as usize;
         let file: Vec<u8> = (0..flen).map(|_| rng.next() as u8).collect();
@@ -376,7 +376,7 @@ impl AsyncSeek for ScriptFile {
 pub fn suite_ioread(dir: &str, seed: u64, thorough: bool, st: &mut Stats) {
     let mut rng = Rng::new(seed ^ 0x82);
     let mut out = SuiteOut::new(dir, "ioread");
-    let n = if thorough { 5000 } else { 600 };
+    let n = if thorough { 20000 } else { 600 };
     for _ in 0..n {
         let flen = rng.range(0, 300) as usize;
         let file: Vec<u8> = (0..flen).map(|_| rng.next() as u8).collect();
